@@ -32,10 +32,10 @@ Lemma ext_next w w1 i : ext w w1 -> i < w_next w -> i < w_next w1.
 Proof. intros (E & _) L. lia. Qed.
 
 (* ---------- Element::set_character_data ---------- *)
-Lemma np_set_character_data w h v0 : PanicFree w -> h < w_next w -> cdata_ok v0 -> (forall b, v0 <> DFloat b) ->
-  runs (e_set_character_data T tab_en check_fn LATEST h v0) w.
+Lemma gq_set_character_data w h v0 : PanicFree w -> h < w_next w -> cdata_ok v0 -> (forall b, v0 <> DFloat b) ->
+  runsQ (e_set_character_data T tab_en check_fn LATEST h v0) w (good w (fun _ _ => True)).
 Proof.
-  intros [C U _] L CV NF. eapply (ENV good_runs _ w (fun _ _ => True)). unfold e_set_character_data.
+  intros [C U _] L CV NF. unfold e_set_character_data.
   destruct (ENV get_node_ok w h C L) as (n & EG & EN & NO).
   eapply (ENV good_rd); [exact C|exists (OK n); split; [exact EG|]; intros a [= <-]; exact (eq_refl n)|]. intros a <-.
   pose proof NO as (ET & NM & KIDS & CD & PO).
@@ -110,6 +110,10 @@ Proof.
   - eapply (ENV good_weaken); [apply (ENV good_add_reference_origin w2 m _ h C2 Lm2 L2)|]. intros; exact I.
 Qed.
 
+Lemma np_set_character_data w h v0 : PanicFree w -> h < w_next w -> cdata_ok v0 -> (forall b, v0 <> DFloat b) ->
+  runs (e_set_character_data T tab_en check_fn LATEST h v0) w.
+Proof. intros. eapply (ENV good_runs). apply gq_set_character_data; assumption. Qed.
+
 (* ---------- Element::set_item_name ---------- *)
 (* the two loops of the rename, named (the same terms as in Ops.v: `fold` finds them) *)
 Definition sin_upd_refs (refpath_new : list N) : list id -> W unit :=
@@ -146,9 +150,10 @@ Proof.
       * intros u w2 N2 w0 _. cbv beta in *. lia.
 Qed.
 
-Lemma np_set_item_name w h new_name : PanicFree w -> h < w_next w -> runs (e_set_item_name T check_fn LATEST h new_name) w.
+Lemma gq_set_item_name w h new_name : PanicFree w -> h < w_next w ->
+  runsQ (e_set_item_name T check_fn LATEST h new_name) w (good w (fun _ _ => True)).
 Proof.
-  intros [C U _] L. eapply (ENV good_runs _ w (fun _ _ => True)). unfold e_set_item_name.
+  intros [C U _] L. unfold e_set_item_name.
   destruct (is_empty new_name); [apply (ENV good_fail); exact C|].
   eapply (ENV good_rd); [exact C|apply (ENV model_of_ok w h C U L)|]. intros m Lm.
   eapply (ENV good_rd); [exact C|apply (ENV min_version_ok w h C U L)|]. intros version _.
@@ -211,6 +216,9 @@ Proof.
     + intros [] w3 C3 X3 _. eapply (ENV good_weaken); [apply IH; [exact C3|eapply ext_models; eauto]|]. intros; exact I.
 Qed.
 
+Lemma np_set_item_name w h new_name : PanicFree w -> h < w_next w -> runs (e_set_item_name T check_fn LATEST h new_name) w.
+Proof. intros. eapply (ENV good_runs). apply gq_set_item_name; assumption. Qed.
+
 (* ---------- Element::set_reference_target ---------- *)
 Lemma good_raw_set_attribute w h attr v version : Closed w -> h < w_next w ->
   runsQ (raw_set_attribute T check_fn h attr v version) w (good w (fun _ w' => sameP w w' /\ w_next w' = w_next w)).
@@ -231,10 +239,10 @@ Qed.
 
 Hypothesis EN_OK : nametab_ok tab_en = true.
 
-Lemma np_set_reference_target w h target : PanicFree w -> h < w_next w -> target < w_next w ->
-  runs (e_set_reference_target T tab_el tab_en check_fn LATEST h target) w.
+Lemma gq_set_reference_target w h target : PanicFree w -> h < w_next w -> target < w_next w ->
+  runsQ (e_set_reference_target T tab_el tab_en check_fn LATEST h target) w (good w (fun _ _ => True)).
 Proof using Env EN_OK.
-  intros [C U _] L Lt. eapply (ENV good_runs _ w (fun _ _ => True)). unfold e_set_reference_target.
+  intros [C U _] L Lt. unfold e_set_reference_target.
   destruct (ENV get_node_ok w h C L) as (n & EG & EN & NO).
   eapply (ENV good_rd); [exact C|exists (OK n); split; [exact EG|]; intros a [= <-]; exact (eq_refl n)|]. intros a <-.
   pose proof NO as (ET & _).
@@ -283,5 +291,9 @@ Proof using Env EN_OK.
     split; [exact C2|]. split; [eapply ext_trans; eauto|destruct r2; exact I].
   - exists (ER InvalidReference), w1. split; [reflexivity|]. split; [exact C1|]. split; [exact X1|exact I].
 Qed.
+
+Lemma np_set_reference_target w h target : PanicFree w -> h < w_next w -> target < w_next w ->
+  runs (e_set_reference_target T tab_el tab_en check_fn LATEST h target) w.
+Proof using Env EN_OK. intros. eapply (ENV good_runs). apply gq_set_reference_target; assumption. Qed.
 
 End Ops3.
